@@ -24,7 +24,7 @@ fn ceil_i(x: f64) -> i64 { if !x.is_finite() { 1 << 30 } else { let c = x.ceil()
 
 /// angles for small_rot_proj: tiny, a hair from a half turn, a hair from a quarter turn, generic
 const SMALL_ANGLES: &[f64] = &[1.0e-3, 1.0e-5, 1.0e-7, 1.0e-8, std::f64::consts::PI - 1.0e-3, std::f64::consts::PI - 1.0e-6, std::f64::consts::PI - 1.0e-8,
-                               std::f64::consts::FRAC_PI_2 + 1.0e-7, 2.0, 3.0];
+                               std::f64::consts::FRAC_PI_2 + 1.0e-7, 2.0, 3.0, 1.0e-2, 1.0e-1];
 
 /// factors for scale_proj: next to 1 (either side), then further and further away
 const SCALES: &[f64] = &[1.00003, 0.99998, 1.0000001, 1.001, 1.0e-3, 1.0e3, 1.0e-9, 1.0e9, 1.0e-17, 1.0e17, -1.0e-6, 1.0e-150, 1.0e150, 1.0e-170];
@@ -184,8 +184,11 @@ pub fn exec_proj<S: Sc + BaseFloat>(op: &str, fm: &str, a: &[Val<S>]) -> Option<
             let (nv, vv) = ([f(n.x), f(n.y), f(n.z)], [f(v.x), f(v.y), f(v.z)]);
             let m = [nv[1] * vv[2] - nv[2] * vv[1], nv[2] * vv[0] - nv[0] * vv[2], nv[0] * vv[1] - nv[1] * vv[0]];
             let (c, sn) = ((k * d).cos(), (k * d).sin());
+            // Rodrigues with the component along the axis: v c + (n x v) s + n (n.v)(1 - c), 1 - c as 2 sin^2(kd/2)
+            let along = nv[0] * vv[0] + nv[1] * vv[1] + nv[2] * vv[2];
+            let omc = 2.0 * (k * d / 2.0).sin().powi(2);
             let o = [f(out.x), f(out.y), f(out.z)];
-            let err = (0..3).map(|i| (o[i] - (c * vv[i] + sn * m[i])).powi(2)).sum::<f64>().sqrt();
+            let err = (0..3).map(|i| (o[i] - (c * vv[i] + sn * m[i] + nv[i] * along * omc)).powi(2)).sum::<f64>().sqrt();
             let len = (o[0] * o[0] + o[1] * o[1] + o[2] * o[2]).sqrt();
             Tup(vec![I(ceil_i(err / eps)), I(ceil_i((len - 1.0).abs() / eps))])
         }
@@ -240,8 +243,13 @@ pub fn exec_proj<S: Sc + BaseFloat>(op: &str, fm: &str, a: &[Val<S>]) -> Option<
             let (sn, cs, tn) = (f(a.sin()), f(a.cos()), f(a.tan()));
             let (s2, c2) = a.sin_cos();
             let rt = red.tan();
+            // csc, sec, cot: relative error, plus the allowance for the reduced argument (none inside the first turn)
+            let argerr = if kk == 0.0 { 0.0 } else { 1.0e-15 };
+            let rel = |val: f64, rf: f64| ceil_i((val - rf).abs() / (eps * rf.abs() + argerr * (1.0 + rf * rf)));
             Tup(vec![I(ceil_i((sn - red.sin()).abs() / eps)), I(ceil_i((cs - red.cos()).abs() / eps)), I(ceil_i((tn - rt).abs() / (eps * (1.0 + rt * rt)))),
-                     I(ceil_i((f(s2) - red.sin()).abs() / eps)), I(ceil_i((f(c2) - red.cos()).abs() / eps))])
+                     I(ceil_i((f(s2) - red.sin()).abs() / eps)), I(ceil_i((f(c2) - red.cos()).abs() / eps)),
+                     I(rel(f(a.csc()), 1.0 / red.sin())), I(rel(f(a.sec()), 1.0 / red.cos())), I(rel(f(a.cot()), red.cos() / red.sin())),
+                     I(rel(sn, red.sin())), I(rel(tn, rt))])
         }
         // C08 with a small but not negligible scale (|s| > 1e-6) or a tiny non-zero determinant: the similarity
         // x -> s R x + d as a Matrix4 / Matrix3 / Matrix2 / Decomposed must still have an inverse that undoes it.
@@ -337,6 +345,18 @@ pub fn exec_proj<S: Sc + BaseFloat>(op: &str, fm: &str, a: &[Val<S>]) -> Option<
                     (vec![f(a.x) * k, f(a.y) * k, f(a.z) * k], vec![f(b.x), f(b.y), f(b.z)], c, true) }
                 ("v3_dot", [V3(u), V3(v)]) => { let c = (maxabs(&[f(u.x), f(u.y), f(u.z)]) * maxabs(&[f(v.x), f(v.y), f(v.z)]) * 3.0 / f(u.dot(*v)).abs().max(1.0e-300)).max(1.0);
                     (vec![f(u.dot(*v)) * k], vec![f(u.dot(*v * ks))], c, true) }
+                ("v2_perp_dot", [V2(u), V2(v)]) => { let c = (maxabs(&[f(u.x), f(u.y)]) * maxabs(&[f(v.x), f(v.y)]) * 2.0 / f(u.perp_dot(*v)).abs().max(1.0e-300)).max(1.0);
+                    (vec![f(u.perp_dot(*v)) * k], vec![f(u.perp_dot(*v * ks))], c, true) }
+                // both operands scaled: degree 2 for the bilinear forms, 0 for angles, 1 for the projection
+                ("v3_cross_both", [V3(u), V3(v)]) => { let (a, b) = (u.cross(*v), (*u * ks).cross(*v * ks)); let c = (maxabs(&[f(u.x), f(u.y), f(u.z)]) * maxabs(&[f(v.x), f(v.y), f(v.z)]) / maxabs(&[f(a.x), f(a.y), f(a.z)]).max(1.0e-300)).max(1.0);
+                    (vec![f(a.x) * k * k, f(a.y) * k * k, f(a.z) * k * k], vec![f(b.x), f(b.y), f(b.z)], c, true) }
+                ("v3_dot_both", [V3(u), V3(v)]) => { let c = (maxabs(&[f(u.x), f(u.y), f(u.z)]) * maxabs(&[f(v.x), f(v.y), f(v.z)]) * 3.0 / f(u.dot(*v)).abs().max(1.0e-300)).max(1.0);
+                    (vec![f(u.dot(*v)) * k * k], vec![f((*u * ks).dot(*v * ks))], c, true) }
+                ("v2_perp_dot_both", [V2(u), V2(v)]) => { let c = (maxabs(&[f(u.x), f(u.y)]) * maxabs(&[f(v.x), f(v.y)]) * 2.0 / f(u.perp_dot(*v)).abs().max(1.0e-300)).max(1.0);
+                    (vec![f(u.perp_dot(*v)) * k * k], vec![f((*u * ks).perp_dot(*v * ks))], c, true) }
+                ("v3_angle_both", [V3(u), V3(v)]) => (vec![f(u.angle(*v).0)], vec![f((*u * ks).angle(*v * ks).0)], 1.0, true),
+                ("v2_angle_both", [V2(u), V2(v)]) => (vec![f(u.angle(*v).0)], vec![f((*u * ks).angle(*v * ks).0)], 1.0, true),
+                ("v3_project_on_both", [V3(u), V3(v)]) => { let (a, b) = (u.project_on(*v), (*u * ks).project_on(*v * ks)); (vec![f(a.x) * k, f(a.y) * k, f(a.z) * k], vec![f(b.x), f(b.y), f(b.z)], 1.0, true) }
                 ("from_arc", [V3(a), V3(b)]) if k > 0.0 => (qv(&Quaternion::from_arc(*a, *b, None)).to_vec(), qv(&Quaternion::from_arc(*a * ks, *b, None)).to_vec(), 1.0, true),
                 // vectors: is_zero exactly when every component equals zero, whatever the size of the others
                 ("v3_is_zero", [V3(v)]) => (vec![0.0], vec![0.0], 1.0, Zero::is_zero(v) == Zero::is_zero(&(*v * ks))),
@@ -347,6 +367,54 @@ pub fn exec_proj<S: Sc + BaseFloat>(op: &str, fm: &str, a: &[Val<S>]) -> Option<
             let scale = maxabs(&exp).max(1.0e-300);
             let dev = exp.iter().zip(got.iter()).map(|(a, b)| (a - b).abs()).fold(0.0f64, f64::max) / (scale * eps * cond.max(1.0));
             Tup(vec![I(ceil_i(dev)), B(ok)])
+        }
+        // C01 on awkward operands: column c of A*B against A*(column c of B), the two computed by different code (matrix
+        // times matrix in each operand form, concat, iter::Product; matrix times vector).  A gets a large last column
+        // (a translation of 1e6), B a last row that is (0,0,0,1) up to a perturbation from 1e-8 down to 1e-17 or exactly.
+        // Deviation in units of eps * sum |a_rk| |b_kc| (the rounding bound of a dot product), maximum over entries and forms.
+        ("mm_col_proj", [M4(a0), M4(b0), I(code)]) => {
+            let table: &[f64] = &[1.0e-16, 3.0e-17, 1.0e-12, 1.0e-8, 0.0, 1.0e-3];
+            let g: S = NumCast::from(table[(*code as usize) % table.len()]).unwrap();
+            let big: S = NumCast::from(1.0e6f64).unwrap();
+            let mut a = *a0; a.w.x = a.w.x * big; a.w.y = a.w.y * big; a.w.z = a.w.z * big;
+            let mut b = *b0;
+            let two: S = NumCast::from(2.0f64).unwrap();
+            b.x.w = b.x.w + g; b.y.w = b.y.w - g * two; b.z.w = b.z.w + g / two;
+            let prods: Vec<Matrix4<S>> = vec![a * b, &a * b, a * &b, &a * &b, Transform::<Point3<S>>::concat(&a, &b), [a, b].iter().product(), [a, b].iter().cloned().product()];
+            let (av, bv) = (m4v(&a), m4v(&b));
+            let mut dev = 0.0f64;
+            for c in 0..4 {
+                let col = match c { 0 => b.x, 1 => b.y, 2 => b.z, _ => b.w };
+                let q = a * col;
+                let qv4 = [f(q.x), f(q.y), f(q.z), f(q.w)];
+                for r in 0..4 {
+                    let bound: f64 = (0..4).map(|kk| (f(av[kk * 4 + r]) * f(bv[c * 4 + kk])).abs()).sum::<f64>().max(1.0e-300);
+                    for pm in &prods { let pv = m4v(pm); dev = dev.max((f(pv[c * 4 + r]) - qv4[r]).abs() / (eps * bound)); }
+                }
+            }
+            Tup(vec![I(ceil_i(dev)), B(true)])
+        }
+        ("mm_col_proj", [M3(a0), M3(b0), I(code)]) => {
+            let table: &[f64] = &[1.0e-16, 3.0e-17, 1.0e-12, 1.0e-8, 0.0, 1.0e-3];
+            let g: S = NumCast::from(table[(*code as usize) % table.len()]).unwrap();
+            let big: S = NumCast::from(1.0e6f64).unwrap();
+            let mut a = *a0; a.z.x = a.z.x * big; a.z.y = a.z.y * big;
+            let mut b = *b0;
+            let two: S = NumCast::from(2.0f64).unwrap();
+            b.x.z = b.x.z + g; b.y.z = b.y.z - g * two;
+            let prods: Vec<Matrix3<S>> = vec![a * b, &a * b, a * &b, &a * &b, Transform::<Point2<S>>::concat(&a, &b), [a, b].iter().product(), [a, b].iter().cloned().product()];
+            let (av, bv) = (m3v(&a), m3v(&b));
+            let mut dev = 0.0f64;
+            for c in 0..3 {
+                let col = match c { 0 => b.x, 1 => b.y, _ => b.z };
+                let q = a * col;
+                let qv3 = [f(q.x), f(q.y), f(q.z)];
+                for r in 0..3 {
+                    let bound: f64 = (0..3).map(|kk| (f(av[kk * 3 + r]) * f(bv[c * 3 + kk])).abs()).sum::<f64>().max(1.0e-300);
+                    for pm in &prods { let pv = m3v(pm); dev = dev.max((f(pv[c * 3 + r]) - qv3[r]).abs() / (eps * bound)); }
+                }
+            }
+            Tup(vec![I(ceil_i(dev)), B(true)])
         }
         // C03 close to parallel: cross(u, u + g w) = g cross(u, w) for exact u, w and g = 1e-3 .. 1e-12 built natively;
         // deviation in units of eps |u| |v| (the natural absolute accuracy of a cross product); likewise perp_dot in 2-D
@@ -360,6 +428,86 @@ pub fn exec_proj<S: Sc + BaseFloat>(op: &str, fm: &str, a: &[Val<S>]) -> Option<
             let un = maxabs(&[f(u.x), f(u.y), f(u.z)]);
             let dev = [(f(c.x) - g * f(e.x)).abs(), (f(c.y) - g * f(e.y)).abs(), (f(c.z) - g * f(e.z)).abs()].iter().cloned().fold(0.0f64, f64::max) / (eps * un * un * 8.0);
             Tup(vec![I(ceil_i(dev)), B(true)])
+        }
+        // C09 over magnitudes that no rational of the model reaches: up and dir are scaled natively by 10^ue and 10^de
+        // before the constructor is called; the measurements are those of look_proj (all scale-free)
+        ("look_mag_proj", [T(inner), T(form), I(ue), I(de), rest @ ..]) => {
+            let ten: S = NumCast::from(10.0f64).unwrap();
+            let (us, ds) = (ten.powi(*ue as i32), ten.powi(*de as i32));
+            // rebuild the argument list with the scaled vectors: [.., dir or (eye, center), up]
+            let mut args: Vec<Val<S>> = rest.to_vec();
+            let n = args.len();
+            if let V3(u) = args[n - 1] { args[n - 1] = V3(u * us); } else { return None; }
+            match (&args[n - 2], n >= 3) {
+                (V3(d), _) => { let d = *d; args[n - 2] = V3(d * ds); }
+                (P3(c), true) => { if let P3(e) = args[n - 3] { let c = *c; args[n - 2] = P3(e + (c - e) * ds); } else { return None; } }
+                _ => return None,
+            }
+            let mut a2: Vec<Val<S>> = vec![T(inner.clone()), T(form.clone())];
+            a2.extend(args);
+            return exec_proj::<S>("look_proj", fm, &a2);
+        }
+        // C10 with far many orders of magnitude beyond near: far = near * ratio, ratio = 1e3 .. 1e12; the near plane still
+        // goes to -1 and the far plane to +1, to a few eps (no 1/g amplification here).  <<built ?, near plane, far plane>> in eps
+        ("deep_proj", [T(ctor), N(n), I(rc)]) => {
+            let table: &[f64] = &[1.0e3, 1.0e6, 1.0e9, 1.0e12];
+            let ratio = table[(*rc as usize) % table.len()];
+            let fa: S = *n * NumCast::from(ratio).unwrap();
+            let c = |x: f64| -> S { NumCast::from(x).unwrap() };
+            let m: Matrix4<S> = match ctor.as_str() {
+                "perspective" => cgmath::perspective(Deg(c(60.0)), c(1.5), *n, fa),
+                "perspective_fov" => PerspectiveFov { fovy: Rad(c(1.0)), aspect: c(0.75), near: *n, far: fa }.into(),
+                "frustum" => cgmath::frustum(c(-1.0), c(2.0), c(-1.0), c(1.5), *n, fa),
+                "perspective_struct" => Perspective { left: c(-1.0), right: c(2.0), bottom: c(-1.0), top: c(1.5), near: *n, far: fa }.into(),
+                "ortho" => cgmath::ortho(c(-1.0), c(2.0), c(-1.0), c(1.5), *n, fa),
+                "planar" => cgmath::planar(Deg(c(60.0)), c(1.5), c(2.0), *n, fa),
+                _ => return None,
+            };
+            let z = |depth: S| -> f64 { let h = m * Vector4::new(S::zero(), S::zero(), -depth, S::one()); f(h.z) / f(h.w) };
+            Tup(vec![B(true), I(ceil_i((z(*n) + 1.0).abs() / eps)), I(ceil_i((z(fa) - 1.0).abs() / eps))])
+        }
+        // C11 angle between nearly parallel / antiparallel vectors (atan2-based: 2-D and 3-D): v = +-cos(d) u + sin(d) m with
+        // u, m exact orthonormal, scaled by s1, s2; | angle - d | (or pi - d) in millionths of d, and the symmetric call
+        ("angle_near_proj", [V3(u), V3(m), I(dc), B(anti), N(s1), N(s2)]) => {
+            let table: &[f64] = &[1.0e-3, 1.0e-5, 1.0e-7, 1.0e-9];
+            let d = table[(*dc as usize) % table.len()];
+            let ds: S = NumCast::from(d).unwrap();
+            let v = ((if *anti { -*u } else { *u }) * ds.cos() + *m * ds.sin()) * *s2;
+            let uu = *u * *s1;
+            let (a1, a2) = (f(uu.angle(v).0), f(v.angle(uu).0));
+            let expect = if *anti { std::f64::consts::PI - d } else { d };
+            let dev = |a: f64| if *anti { ceil_i(((std::f64::consts::PI - a) - d).abs() / d * 1.0e6) } else { ceil_i((a - expect).abs() / d * 1.0e6) };
+            Tup(vec![I(dev(a1)), I(dev(a2))])
+        }
+        ("angle_near_proj", [V2(u), I(dc), B(anti), B(cw), N(s1), N(s2)]) => {
+            let table: &[f64] = &[1.0e-3, 1.0e-5, 1.0e-7, 1.0e-9];
+            let d = table[(*dc as usize) % table.len()];
+            let ds: S = NumCast::from(d).unwrap();
+            let m = if *cw { Vector2::new(u.y, -u.x) } else { Vector2::new(-u.y, u.x) };
+            let v = ((if *anti { -*u } else { *u }) * ds.cos() + m * ds.sin()) * *s2;
+            let uu = *u * *s1;
+            // signed: counter-clockwise positive; from u to v
+            let sg = if *cw { -1.0 } else { 1.0 };
+            let expect = if *anti { sg * (std::f64::consts::PI - d) } else { sg * d };
+            let (a1, a2) = (f(uu.angle(v).0), f(v.angle(uu).0));
+            let dev = |a: f64, e: f64| if *anti { ceil_i(((std::f64::consts::PI - a.abs()) - d).abs() / d * 1.0e6) + if a * e < 0.0 { 1 << 20 } else { 0 } } else { ceil_i((a - e).abs() / d * 1.0e6) };
+            Tup(vec![I(dev(a1, expect)), I(dev(a2, -expect))])
+        }
+        // C14 endpoints for nearly equal / nearly opposite quaternions: b = +-(a * (cos d/2 + sin d/2 n)) built natively;
+        // nlerp / slerp give a at t = 0 and +-b at t = 1 (distance in eps), and a unit quaternion half way
+        ("lerp_end_proj", [T(which), Q(a), V3(n), I(dc), B(opp)]) => {
+            let table: &[f64] = &[1.0e-3, 1.0e-6, 1.0e-8, 1.0e-9, 1.0e-12];
+            let d = table[(*dc as usize) % table.len()];
+            let h: S = NumCast::from(d / 2.0).unwrap();
+            let mut b = *a * Quaternion::from_sv(h.cos(), *n * h.sin());
+            b = b / b.magnitude();
+            if *opp { b = -b; }
+            let g = |t: f64| -> Quaternion<S> { let ts: S = NumCast::from(t).unwrap(); if which == "nlerp" { a.nlerp(b, ts) } else { a.slerp(b, ts) } };
+            let (r0, r1, rh) = (qv(&g(0.0)), qv(&g(1.0)), qv(&g(0.5)));
+            let (av, bv) = (qv(a), qv(&b));
+            let dist = |x: &[f64; 4], y: &[f64; 4], sg: f64| (0..4).map(|i| (x[i] - sg * y[i]).powi(2)).sum::<f64>().sqrt();
+            let e1 = dist(&r1, &bv, 1.0).min(dist(&r1, &bv, -1.0));
+            Tup(vec![I(ceil_i(dist(&r0, &av, 1.0) / eps)), I(ceil_i(e1 / eps)), I(ceil_i((norm4(&rh) - 1.0).abs() / eps))])
         }
         // C15 close to (anti)parallel.  a is a unit vector, n a unit vector perpendicular to it (both exact rationals);
         // b = +-cos(d) a + sin(d) (n x a) is built natively, at angle d (or pi - d) from a, for d from a table well above the
